@@ -347,13 +347,34 @@ def config_ops(cfg, c=0, seg=True):
         # the same calculator constructed the other public way: SmartCalc::load_from_json on the shipped configuration text, followed
         # by the date patterns SmartCalc::default() registers
         from . import core
-        ops = ([{'op': 'new_calc_json', 'c': c, 'path': os.path.join(core.REPO, 'src/json/config.json'), 'set': []}] +
-               [{'op': 'set_date_rule', 'c': c, 'lang': l_, 'patterns': p_} for l_, p_ in DEFAULT_DATE_PATTERNS]) + ops
+        ops = ([{'op': 'new_calc_json', 'c': c, 'path': os.path.join(core.REPO, 'src/json/config.json'), 'set': cfg.get('json_edits', [])}] +
+               [{'op': 'set_date_rule', 'c': c, 'lang': l_, 'patterns': p_} for l_, p_ in DEFAULT_DATE_PATTERNS if cfg.get('json_dates', True)]) + ops
     elif c == 0 and cfg.get('restore_default'):
         ops = [{'op': 'new_calc', 'c': c}] + ops
     if seg:
         ops[0]['seg'] = True
     return ops
+
+
+def neutral_config_edits(seed):
+    """JSON-pointer edits of the shipped configuration text that change no meaning: lists whose order says nothing, re-ordered"""
+    import random
+    rng = random.Random(seed)
+    conf = lex.config()
+    edits = []
+    for k, fam in enumerate(conf['types']):
+        items = list(fam['items'])
+        if rng.random() < 0.5:
+            items.reverse()
+        else:
+            rng.shuffle(items)
+        edits.append(['/types/%d/items' % k, items])
+    for lang, body in conf['languages'].items():
+        for group, words in body.get('word_group', {}).items():
+            words = list(words)
+            rng.shuffle(words)
+            edits.append(['/languages/%s/word_group/%s' % (lang, group), words])
+    return edits
 
 
 # what SmartCalc::default() passes to set_date_rule (src/smartcalc.rs)
